@@ -92,4 +92,24 @@ PROPS = {
         technique="Coq proof (priority-sortedness invariant, first-ready lemma) + extracted-model differential testing + rotation oracle",
         assumptions=["time.Since replaced by explicit 'now' (driver keeps ages far from the delay threshold)"],
     ),
+    "C18": dict(
+        coq="Properties/C18.v",
+        suites=[dict(name="log", pkg="./log/", test="TestVerifLog", min_lines=500)],
+        rule=("log: seeded cases: 1..4 day files (today, yesterday, up to 65 days back incl. month boundaries) written by the real FileIO.Received/"
+              "Sent (day files moved to their dates), names from a prefix/suffix/substring-closed alphabet (a, ab, bc, abc, dir/abc.dat, names equal to "
+              "hashes, spaces, unicode; 1/12 of the cases with ':' in names = finding domain), same name logged again with another hash, rename targets "
+              "that look like hashes; 2..9 look-ups per case (written and unwritten names, with/without hash; windows: same day, across midnight, wide, "
+              "reversed, empty, not touching) + Parse over the whole range; plus concurrent-writer runs (8 goroutines x 60 records); non-trivial = a case "
+              "with both positive and negative answers; distinct = distinct input lines"),
+        level_text=("Proof: Coq theorems over the model of the log format and the day walk: a record answers a look-up iff its name field equals the "
+                    "name (and its hash field the hash), every touched day is visited for forward/reversed windows, the whole-log look-up is exact, "
+                    "Parse returns every field as written (for ':'-free fields); refuted with a witness for names containing ':' (format limitation = "
+                    "known finding). The model describes the code after the 'fix:' commit 88c8cb3; tied to it by the differential run of the real FileIO."),
+        level_note=("Trusted: Coq kernel (no axioms), extraction, harness. Modelled by hand: log/local.go search/each/eachLine/Parse/line formats. "
+                    "Library code assumed: strconv, bufio.Scanner (lines < 64 KiB), fmt. Time zone: UTC (harness sets TZ=UTC; DST days are not modelled). "
+                    "Concurrent writers: serialised by the logger goroutine - exercised (whole lines, multiset equal), not proved."),
+        technique="Coq proof (split/join, prefix exactness, day-walk induction) + extracted-model differential testing of the real log code",
+        assumptions=["TZ=UTC; local-time DST days (23/25 h) not modelled", "times are whole seconds; zero time.Time arguments not generated",
+                     "writers are serialised by the logger goroutine (explored by concurrent runs)"],
+    ),
 }
